@@ -5,7 +5,7 @@
 import os, sys
 sys.path.insert(0, os.path.join(os.environ.get("AIOFTP_REPO", "/repo"), "src"))
 OBLIGATION = 'aioftp.server:Server.user#SEQ::<unit>/exit:I1-logged-implies-authorised-user'
-MODEL = {'block_size!0': 1, 'cwd!326': 'Empty(Seq(String))', 'acquired!10': True, 'u_cur_home!325': 'Empty(Seq(String))', 'srv_max!1': 1, 'u_new_home!330': 'Empty(Seq(String))', 'restart_offset!11': 0, 'srv_value!28': 0, 'srv_rest!328': 1, 'user_done!13': True, 'auth_ok!30': True, 'user_present!12': True, 'logged_done!15': True, 'logged_present!14': True, 'throttle_per_user_has!33': False, 'current_directory_present!16': True, 'current_directory_done!17': True, 'rename_from_present!18': True, 'srv_value!29': 0}
+MODEL = {'u_cur_home!1003': 'Empty(Seq(String))', 'cwd!1004': 'Empty(Seq(String))', 'srv_rest!1006': 1, 'block_size!0': 1, 'acquired!10': True, 'srv_max!1': 1, 'u_new_home!1008': 'Empty(Seq(String))', 'restart_offset!11': 0, 'srv_value!28': 0, 'user_done!13': True, 'auth_ok!30': True, 'user_present!12': True, 'logged_done!15': True, 'logged_present!14': True, 'throttle_per_user_has!33': False, 'current_directory_present!16': True, 'current_directory_done!17': True, 'rename_from_present!18': True, 'srv_value!29': 0}
 SOLVER_NOTE = ''
 
 print("obligation", OBLIGATION, "failed; no concrete failing input could be constructed automatically")
